@@ -61,6 +61,10 @@ FIXED = [
     ("C13", ["memory_maps_path_wrong:trailing_whitespace_stripped"], "fix: memory_maps() stripped trailing whitespace", "mapped file whose name ends in a space"),
     ("C14", ["open_files_keyerror_access_mode_3"], "fix: open_files() raised KeyError", "fd opened with access mode 3 (live reproducer)"),
     ("C14", ["io_counters_exception:ValueError:nonnumeric_value_line"], "fix: io_counters() raised ValueError", "extra 'name: non-number' line in /proc/<pid>/io"),
+    ("C12", ["name_wrong:15_byte_comm:non_ascii"], "fix: name() counted characters, not bytes, to tell a truncated name",
+     "15-byte name made of multi-byte characters (or cut inside one) is never completed from cmdline()[0]"),
+    ("C15", ["negative_timeout_accepted:popen_after_exit"], "fix: Popen.wait() accepted a negative timeout once the status was known",
+     "psutil.Popen: wait(-1) after wait()/poll()/communicate() returns the code instead of raising ValueError"),
     ("C16", ["inblock_value_older_than_block_entry", "plain_call_value_older_than_call", "inblock_values_differ_for_one_source"],
      "fix: oneshot() cache could serve a value read before the block started", "3-pre-emption schedule: value computed in block 1 stored into block 2's cache"),
     ("C17", ["users_field_wrong:user:full_width_unterminated_field", "users_field_wrong:terminal:full_width_unterminated_field",
